@@ -20,7 +20,7 @@ from typing import Any, Dict, List
 
 from hypothesis import strategies as st
 
-from ..core import CaseResult, Family, HarnessError, Violation
+from ..core import CaseResult, Family, HarnessError, Violation, pick
 from ..engines import memwire, refpeer
 from ..engines.memwire import (LogClientSession, LogServerSession, Pair,
                                asyncssh)
@@ -251,23 +251,23 @@ def ref_strategy(tier: str):
     if tier == 'quick':
         # group-exchange and group14 cost ~50 ms of modexp each: keep a
         # sample in the quick tier
-        kex_st = st.sampled_from(
+        kex_st = pick(
             ['curve25519-sha256', 'ecdh-sha2-nistp256', 'ecdh-sha2-nistp384',
              'ecdh-sha2-nistp521', 'curve448-sha512', 'curve25519-sha256',
              'curve25519-sha256@libssh.org', 'diffie-hellman-group14-sha256',
              'diffie-hellman-group-exchange-sha256', 'curve25519-sha256'])
     else:
-        kex_st = st.sampled_from(kexes)
+        kex_st = pick(kexes)
 
-    size = st.one_of(st.sampled_from(SIZES), st.integers(0, 300))
+    size = st.one_of(pick(SIZES), st.integers(0, 300))
     return st.fixed_dictionaries({
-        'role': st.sampled_from(['server', 'client']),
+        'role': pick(['server', 'client']),
         'kex': kex_st,
-        'enc': st.sampled_from(sorted(c.decode() for c in CIPHERS)),
-        'mac': st.sampled_from(sorted(m.decode() for m in MACS)),
-        'comp': st.sampled_from(['none', 'none', 'zlib@openssh.com', 'zlib']),
+        'enc': pick(sorted(c.decode() for c in CIPHERS)),
+        'mac': pick(sorted(m.decode() for m in MACS)),
+        'comp': pick(['none', 'none', 'zlib@openssh.com', 'zlib']),
         'strict': st.booleans(),
-        'hostkey': st.sampled_from(['ed25519', 'ecdsa', 'rsa']),
+        'hostkey': pick(['ed25519', 'ecdsa', 'rsa']),
         'writes': st.lists(size, min_size=1, max_size=6),
         'ref_writes': st.lists(size, min_size=0, max_size=4),
         'pump_each': st.booleans(),
@@ -373,16 +373,16 @@ def pair_strategy(tier: str):
 
     if tier == 'quick':
         kex_st = st.one_of(
-            st.sampled_from([k for k in kex
+            pick([k for k in kex
                              if not any(s in k for s in slow)]),
-            st.sampled_from(kex))
+            pick(kex))
     else:
-        kex_st = st.sampled_from(kex)
+        kex_st = pick(kex)
 
-    size = st.one_of(st.sampled_from(SIZES), st.integers(0, 300))
+    size = st.one_of(pick(SIZES), st.integers(0, 300))
     return st.fixed_dictionaries({
-        'kex': kex_st, 'enc': st.sampled_from(enc),
-        'mac': st.sampled_from(mac), 'comp': st.sampled_from(comp),
+        'kex': kex_st, 'enc': pick(enc),
+        'mac': pick(mac), 'comp': pick(comp),
         'writes': st.lists(size, min_size=1, max_size=4),
         'chunks': st.one_of(st.just([1]),
                             st.lists(st.integers(1, 40), min_size=1,
@@ -483,15 +483,15 @@ def openssh_strategy(tier: str):
     a = openssh_algs()
     slow = ('group16', 'group18')
     return st.fixed_dictionaries({
-        'kex': st.sampled_from([k for k in a['kex']
+        'kex': pick([k for k in a['kex']
                                 if tier != 'quick' or
                                 not any(s in k for s in slow)]),
-        'enc': st.sampled_from(a['enc']), 'mac': st.sampled_from(a['mac']),
+        'enc': pick(a['enc']), 'mac': pick(a['mac']),
         'compress': st.booleans(),
-        'size': st.one_of(st.sampled_from([0, 1, 15, 16, 17, 32759, 32768,
+        'size': st.one_of(pick([0, 1, 15, 16, 17, 32759, 32768,
                                            32769, 100000]),
                           st.integers(0, 5000)),
-        'status': st.sampled_from([0, 0, 1, 42]),
+        'status': pick([0, 0, 1, 42]),
     })
 
 
